@@ -22,13 +22,22 @@ relation the property is about. Theorems:
   `intermediate_widening_refused`, `declaration_not_inherited` (an ancestor's `@override`
   declaration does not cover a descendant), `new_field_below_forbidding_parent_refused`
   (required, `Optional` or defaulted: no new field below a parent that forbids extras).
-* `loads_examine_every_ancestor` — load order does not matter: after any sequence of plugin loads
-  (`loadPlugin`/`loadAll`: `check_types` *without* `recheck`, the `__types_checked__` marks of the
-  earlier loads kept) none of which was refused, every loaded class and every class up its
-  inheritance chain has passed `check_allowed_types` and `check_overrides` (invariant `MarksOk`,
-  `checkTypesF_marksOk`); `load_examines_unmarked` (a mark is per class: a class without a mark of
-  its own is examined whatever else is marked), `child_refused_whatever_is_marked`;
-  `refused_class_passes_next_load` (pinned behaviour: the mark survives a refusal).
+* `loads_examine_every_ancestor` — load order and earlier refusals do not matter: after any sequence
+  of plugin loads (`loadPlugin`/`loadAll`: `check_types` *without* `recheck`, the `__types_checked__`
+  marks of the earlier loads kept, refused loads among them, dependency cycles allowed), a load
+  that passes means that the loaded class and every class up its inheritance chain has passed
+  `check_allowed_types` and `check_overrides` (invariant `MarksOk`: `checkTypesF_marksOk` for a walk
+  that passes, `refused_load_restores_marks` for one that does not). `refused_stays_refused` /
+  `refused_at_every_load`: a class that fails its examination is refused at every load, after any
+  history, and so is every class that has it on its inheritance chain. No hypothesis on the
+  table, no bound on loads or classes. `load_examines_unmarked` (a mark is per class: a class
+  without a mark of its own is examined whatever else is marked), `child_refused_whatever_is_marked`;
+  `legacy_refused_class_passes_next_load` (pinned behaviour before F31: the mark survived a
+  refusal), `legacy_nested_descendant_keeps_mark_of_refused_walk` (the first repair cleared the
+  marks on the stack only, which a dependency cycle defeated).
+* `const_over_container_refused` — `add_const_fields` over a collection-valued field (`List`/`Set`,
+  also below `Optional`/`Annotated`) is refused without `override=True` whatever the item type is;
+  `legacy_const_over_container_accepted` (pinned behaviour before F30).
 * `Extends` / `child_valid_in_parent` also cover the "marked subclass" pattern: a field of the base
   pinned by a constant of the child (`add_const_fields` over a Literal field).
 * `installedStrings_sound_except`, `qualhashsum_not_subtype` — the class table of the installed
@@ -912,48 +921,83 @@ theorem checkTypesF_marksOk (T : Table) : ∀ (fuel : Nat) (pending marks : List
             · exact hbn e
             · exact hbp hp') cb hcb
 
-/-- one plugin load keeps the meaning of the marks -/
-theorem loadPlugin_marksOk (T : Table) (marks : List Str) (n : Str) (h : MarksOk T [] marks)
-    (hok : (loadPlugin T marks n).2 = .ok ()) : MarksOk T [] (loadPlugin T marks n).1 := by
-  apply checkTypesF_marksOk T _ [] marks n _ h hok
-  have := unexamined_le T marks
-  omega
+theorem loadPlugin_of_ok (T : Table) (marks : List Str) (n : Str)
+    (h : (checkTypesF T (2 * T.length + 2) marks n).2 = .ok ()) :
+    loadPlugin T marks n = ((checkTypesF T (2 * T.length + 2) marks n).1, .ok ()) := by
+  unfold loadPlugin
+  simp only [h]
 
+theorem loadPlugin_of_error (T : Table) (marks : List Str) (n : Str) (e : Refusal)
+    (h : (checkTypesF T (2 * T.length + 2) marks n).2 = .error e) :
+    loadPlugin T marks n = (marks, .error e) := by
+  unfold loadPlugin
+  simp only [h]
+
+/-- the outcome of a load is the outcome of the walk -/
+theorem loadPlugin_snd (T : Table) (marks : List Str) (n : Str) :
+    (loadPlugin T marks n).2 = (checkTypesF T (2 * T.length + 2) marks n).2 := by
+  cases h : (checkTypesF T (2 * T.length + 2) marks n).2 with
+  | error e => rw [loadPlugin_of_error T marks n e h]
+  | ok u => cases u; rw [loadPlugin_of_ok T marks n h]
+
+/-- **A refused load leaves no trace**: the marks afterwards are the marks from before
+(`core.py:390-395`: the top-level call clears every mark it has set). -/
+theorem refused_load_restores_marks (T : Table) (marks : List Str) (n : Str)
+    (h : (loadPlugin T marks n).2 ≠ .ok ()) : (loadPlugin T marks n).1 = marks := by
+  cases hr : (checkTypesF T (2 * T.length + 2) marks n).2 with
+  | error e => rw [loadPlugin_of_error T marks n e hr]
+  | ok u =>
+    cases u
+    rw [loadPlugin_snd, hr] at h
+    exact absurd rfl h
+
+/-- one plugin load keeps the meaning of the marks, refused or not -/
+theorem loadPlugin_marksOk (T : Table) (marks : List Str) (n : Str) (h : MarksOk T [] marks) :
+    MarksOk T [] (loadPlugin T marks n).1 := by
+  cases hr : (checkTypesF T (2 * T.length + 2) marks n).2 with
+  | error e => rw [loadPlugin_of_error T marks n e hr]; exact h
+  | ok u =>
+    cases u
+    rw [loadPlugin_of_ok T marks n hr]
+    apply checkTypesF_marksOk T _ [] marks n _ h hr
+    have := unexamined_le T marks
+    omega
+
+/-- … and so does any sequence of loads, whatever their outcomes -/
 theorem loadAll_marksOk (T : Table) : ∀ (loads marks : List Str), MarksOk T [] marks →
-    (∀ r ∈ (loadAll T marks loads).2, r = .ok ()) → MarksOk T [] (loadAll T marks loads).1 := by
+    MarksOk T [] (loadAll T marks loads).1 := by
   intro loads
   induction loads with
-  | nil => intro marks h _; exact h
+  | nil => intro marks h; exact h
   | cons n ns ih =>
-    intro marks h hall
-    simp only [loadAll] at hall ⊢
-    apply ih _ (loadPlugin_marksOk T marks n h (hall _ (List.mem_cons_self ..)))
-    intro r hr
-    exact hall r (List.mem_cons_of_mem _ hr)
-
-theorem loadAll_mono (T : Table) : ∀ (loads marks : List Str), ∀ b ∈ marks, b ∈ (loadAll T marks loads).1 := by
-  intro loads
-  induction loads with
-  | nil => intro marks b hb; exact hb
-  | cons n ns ih =>
-    intro marks b hb
+    intro marks h
     simp only [loadAll]
-    exact ih _ b (checkTypesF_mono T _ marks n b hb)
+    exact ih _ (loadPlugin_marksOk T marks n h)
 
-theorem loadAll_marks_loaded (T : Table) : ∀ (loads marks : List Str) (n : Str), n ∈ loads →
-    find T n = none ∨ n ∈ (loadAll T marks loads).1 := by
-  intro loads
-  induction loads with
-  | nil => intro _ n hn; cases hn
-  | cons m ms ih =>
-    intro marks n hn
-    simp only [loadAll]
-    rcases List.mem_cons.mp hn with e | hn'
-    · subst e
-      rcases checkTypesF_marks_self T (2 * T.length + 1) marks n with h | h
-      · exact Or.inl h
-      · exact Or.inr (loadAll_mono T ms _ n h)
-    · exact ih _ n hn'
+theorem loadAll_append (T : Table) : ∀ (xs ys marks : List Str),
+    loadAll T marks (xs ++ ys) =
+      ((loadAll T (loadAll T marks xs).1 ys).1, (loadAll T marks xs).2 ++ (loadAll T (loadAll T marks xs).1 ys).2) := by
+  intro xs
+  induction xs with
+  | nil => intro ys marks; rfl
+  | cons x xs ih =>
+    intro ys marks
+    simp only [List.cons_append, loadAll, ih, List.cons_append]
+
+theorem loadAll_length (T : Table) : ∀ (xs marks : List Str), (loadAll T marks xs).2.length = xs.length := by
+  intro xs
+  induction xs with
+  | nil => intro _; rfl
+  | cons x xs ih => intro marks; simp [loadAll, ih]
+
+/-- the outcome of the load at position `pre.length` of a sequence is the outcome of `loadPlugin`
+on the marks the loads before it left behind -/
+theorem loadAll_outcome_at (T : Table) (pre post : List Str) (n : Str) :
+    (loadAll T [] (pre ++ n :: post)).2[pre.length]? = some (loadPlugin T (loadAll T [] pre).1 n).2 := by
+  rw [loadAll_append]
+  simp only [loadAll]
+  rw [List.getElem?_append_right (by rw [loadAll_length]; exact Nat.le_refl _)]
+  simp [loadAll_length]
 
 /-- with marks that mean what they should, the whole inheritance chain of a marked class is marked -/
 theorem marksOk_chain (T : Table) (marks : List Str) (h : MarksOk T [] marks) :
@@ -986,18 +1030,24 @@ theorem marksOk_chain (T : Table) (marks : List Str) (h : MarksOk T [] marks) :
             cases hfa
           | succ k => simp [nthAnc, hpn] at ha
 
-/-- **Load order does not matter.** After any sequence of plugin loads (`check_types` without
-`recheck`, in any order, with repetitions, parents before or after their children) none of
-which was refused, every class that was loaded and every class up its inheritance chain —
-plugin or plain intermediate class, marked by this load or by an earlier one — has passed
-`check_allowed_types` and `check_overrides`. No bound on the number of loads or classes. -/
-theorem loads_examine_every_ancestor (T : Table) (loads : List Str)
-    (hall : ∀ r ∈ (loadAll T [] loads).2, r = .ok ()) (n : Str) (hn : n ∈ loads)
+/-- **Load order and earlier refusals do not matter.** After any sequence of plugin loads
+(`check_types` without `recheck`, in any order, with repetitions, parents before or after their
+children, *any of them refused*; dependency cycles allowed), a load that passes means: the loaded
+class and every class up its inheritance chain — plugin or plain intermediate class, marked by this
+load or by an earlier one — has passed `check_allowed_types` and `check_overrides`. No bound on the
+number of loads or classes, no hypothesis on the table. (For the pinned code this needed the
+hypothesis that no earlier load of the process was refused: `legacy_refused_class_passes_next_load`.) -/
+theorem loads_examine_every_ancestor (T : Table) (pre : List Str) (n : Str)
+    (hok : (loadPlugin T (loadAll T [] pre).1 n).2 = .ok ())
     (k : Nat) (a : Str) (ca : ClassDef) (ha : nthAnc T k n = some a) (hfa : find T a = some ca) :
     checkAllowed T ca = .ok () ∧ checkOverrides T ca = .ok () := by
-  have hM := loadAll_marksOk T loads [] (by intro b hb; cases hb) hall
-  have hnm : n ∈ (loadAll T [] loads).1 := by
-    rcases loadAll_marks_loaded T loads [] n hn with hnone | hmem
+  have hM0 := loadAll_marksOk T pre [] (by intro b hb; cases hb)
+  have hM := loadPlugin_marksOk T _ n hM0
+  have hok' : (checkTypesF T (2 * T.length + 2) (loadAll T [] pre).1 n).2 = .ok () := by
+    rw [← loadPlugin_snd]; exact hok
+  have hnm : n ∈ (loadPlugin T (loadAll T [] pre).1 n).1 := by
+    rw [loadPlugin_of_ok T _ n hok']
+    rcases checkTypesF_marks_self T (2 * T.length + 1) (loadAll T [] pre).1 n with hnone | hmem
     · cases k with
       | zero =>
         simp only [nthAnc, Option.some.injEq] at ha
@@ -1009,45 +1059,273 @@ theorem loads_examine_every_ancestor (T : Table) (loads : List Str)
   obtain ⟨h1, h2, _⟩ := hM a ham (by simp) ca hfa
   exact ⟨h1, h2⟩
 
+/-- the same for a whole sequence: wherever in a sequence of loads a load passes -/
+theorem loads_examine_every_ancestor_at (T : Table) (pre post : List Str) (n : Str)
+    (hok : (loadAll T [] (pre ++ n :: post)).2[pre.length]? = some (.ok ()))
+    (k : Nat) (a : Str) (ca : ClassDef) (ha : nthAnc T k n = some a) (hfa : find T a = some ca) :
+    checkAllowed T ca = .ok () ∧ checkOverrides T ca = .ok () := by
+  rw [loadAll_outcome_at] at hok
+  exact loads_examine_every_ancestor T pre n (Option.some.inj hok) k a ca ha hfa
+
+/-- **A refused class stays refused, and so does everything below it.** Whatever was loaded
+before (any sequence, any outcomes): if a class `a` on the inheritance chain of `n` (`k = 0`: `n`
+itself) fails `check_allowed_types` or `check_overrides`, the load of `n` is refused. -/
+theorem refused_stays_refused (T : Table) (pre : List Str) (n : Str) (k : Nat) (a : Str) (ca : ClassDef)
+    (ha : nthAnc T k n = some a) (hfa : find T a = some ca)
+    (hbad : checkAllowed T ca ≠ .ok () ∨ checkOverrides T ca ≠ .ok ()) :
+    (loadPlugin T (loadAll T [] pre).1 n).2 ≠ .ok () := by
+  intro hok
+  obtain ⟨h1, h2⟩ := loads_examine_every_ancestor T pre n hok k a ca ha hfa
+  rcases hbad with h | h
+  · exact h h1
+  · exact h h2
+
+/-- the same about the list of outcomes of a whole sequence: at *every* position where `n` is
+loaded — the first time, again after it was refused, after a sibling, after its parent — the
+outcome is a refusal -/
+theorem refused_at_every_load (T : Table) (pre post : List Str) (n : Str) (k : Nat) (a : Str) (ca : ClassDef)
+    (ha : nthAnc T k n = some a) (hfa : find T a = some ca)
+    (hbad : checkAllowed T ca ≠ .ok () ∨ checkOverrides T ca ≠ .ok ()) :
+    ∃ r, (loadAll T [] (pre ++ n :: post)).2[pre.length]? = some r ∧ r ≠ .ok () :=
+  ⟨_, loadAll_outcome_at T pre post n, refused_stays_refused T pre n k a ca ha hfa hbad⟩
+
 /-- a class that carries no mark of its own is examined by its load, whatever else is marked
 (in particular its base class): the mark is per class, it is not inherited -/
 theorem load_examines_unmarked (T : Table) (marks : List Str) (n : Str) (c : ClassDef)
     (hn : n ∉ marks) (hf : find T n = some c) (h : (loadPlugin T marks n).2 = .ok ()) :
     checkAllowed T c = .ok () ∧ checkOverrides T c = .ok () :=
-  (checkTypesF_succ_snd_ok T (2 * T.length + 1) marks n c (by simpa using hn) hf h).2
+  (checkTypesF_succ_snd_ok T (2 * T.length + 1) marks n c (by simpa using hn) hf
+    (by rw [← loadPlugin_snd]; exact h)).2
 
-/-- `Ga.f : Int` with two children that widen `f` without declaring it -/
+/-- `Ga.f : Int` with two children that widen `f` without declaring it, and a class below one of them -/
 def tblSibs : Table :=
   [{ name := "Ga".toList, fields := [("f".toList, .int, none)] },
    { name := "Ch".toList, parent := some "Ga".toList, fields := [("f".toList, .opt .int, none)] },
-   { name := "Cb".toList, parent := some "Ga".toList, fields := [("f".toList, .union [.int, .str], none)] }]
+   { name := "Cb".toList, parent := some "Ga".toList, fields := [("f".toList, .union [.int, .str], none)] },
+   { name := "Le".toList, parent := some "Ch".toList }]
 
 theorem tblSibs_Ch : find tblSibs "Ch".toList =
     some { name := "Ch".toList, parent := some "Ga".toList, fields := [("f".toList, .opt .int, none)] } := rfl
+
+theorem tblSibs_Ch_bad : checkOverrides tblSibs
+    { name := "Ch".toList, parent := some "Ga".toList, fields := [("f".toList, .opt .int, none)] } ≠ .ok () := by
+  rw [show checkOverrides tblSibs _ = .error .typeError from rfl]
+  exact fun h => by cases h
 
 /-- the widening child is refused whatever else is marked — its parent loaded before it, a
 sibling, nothing at all — as long as it was not itself checked before -/
 theorem child_refused_whatever_is_marked (marks : List Str) (h : "Ch".toList ∉ marks) :
     (loadPlugin tblSibs marks "Ch".toList).2 ≠ .ok () := by
   intro hok
-  have := (load_examines_unmarked tblSibs marks _ _ h tblSibs_Ch hok).2
-  have he : checkOverrides tblSibs { name := "Ch".toList, parent := some "Ga".toList, fields := [("f".toList, .opt .int, none)] } = .error .typeError := rfl
-  rw [he] at this
-  cases this
+  exact tblSibs_Ch_bad (load_examines_unmarked tblSibs marks _ _ h tblSibs_Ch hok).2
 
-/-- the pinned behaviour after a refusal (`core.py:371` sets the mark before the class is
-examined, nothing clears it when the examination raises): the refused class passes the next
-load unexamined — so the hypothesis "no load was refused" of `loads_examine_every_ancestor`
-cannot be dropped -/
-theorem refused_class_passes_next_load :
-    (loadPlugin tblSibs [] "Ch".toList).2 ≠ .ok () ∧
-    (loadPlugin tblSibs (loadPlugin tblSibs [] "Ch".toList).1 "Ch".toList).2 = .ok () := by
-  refine ⟨child_refused_whatever_is_marked [] (by simp), ?_⟩
-  have hmem : "Ch".toList ∈ (loadPlugin tblSibs [] "Ch".toList).1 := by
-    rcases checkTypesF_marks_self tblSibs (2 * tblSibs.length + 1) [] "Ch".toList with h | h
-    · rw [tblSibs_Ch] at h; cases h
-    · exact h
-  unfold loadPlugin at hmem ⊢
-  rw [checkTypesF_seen tblSibs _ _ _ (by simpa using hmem)]
+/-- non-vacuity of `refused_stays_refused`: after any loads whatsoever the widening child `Ch` and
+the class `Le` below it are refused -/
+example (pre : List Str) :
+    (loadPlugin tblSibs (loadAll tblSibs [] pre).1 "Ch".toList).2 ≠ .ok () ∧
+    (loadPlugin tblSibs (loadAll tblSibs [] pre).1 "Le".toList).2 ≠ .ok () :=
+  ⟨refused_stays_refused tblSibs pre "Ch".toList 0 "Ch".toList _ rfl tblSibs_Ch (Or.inr tblSibs_Ch_bad),
+   refused_stays_refused tblSibs pre "Le".toList 1 "Ch".toList _ rfl tblSibs_Ch (Or.inr tblSibs_Ch_bad)⟩
+
+/-- the concrete sequence of the report (F31): `Ch` refused, `Ch` again refused, `Le` refused, the
+sound part (`Ga`) passes, and only `Ga` is marked in the end -/
+example : loadAll tblSibs [] ["Ch".toList, "Ch".toList, "Le".toList, "Ga".toList] =
+    (["Ga".toList], [.error .typeError, .error .typeError, .error .typeError, .ok ()]) := by rfl
+
+/-- `Ga.f : Int  <-  Mi (f : Optional[Int], undeclared; h : Optional[De])  <-  De`: the class `Mi`
+names its own subclass `De` in a field (a dependency cycle) -/
+def tblCyc : Table :=
+  [{ name := "Ga".toList, fields := [("f".toList, .int, none)] },
+   { name := "Mi".toList, parent := some "Ga".toList,
+     fields := [("f".toList, .opt .int, none), ("h".toList, .opt (.model "De".toList .allow [] []), none)] },
+   { name := "De".toList, parent := some "Mi".toList }]
+
+/-- non-vacuity with a dependency cycle: `De` is examined *inside* the walk of `Mi` while `Mi`
+carries its mark, and passes there; the walk of `Mi` is refused, every mark it set is cleared, and
+`De` is refused whenever it is loaded -/
+example : build tblCyc = .ok () ∧
+    loadAll tblCyc [] ["Mi".toList, "De".toList, "Mi".toList, "De".toList, "Ga".toList] =
+      (["Ga".toList], [.error .typeError, .error .typeError, .error .typeError, .error .typeError, .ok ()]) := by
+  refine ⟨rfl, rfl⟩
+
+/-! ## the behaviour of `check_types` before the two repairs (F31) -/
+
+namespace Legacy
+
+/-- a plugin load as pinned (`core.py:367-389` before `fix: check_types forgets the 'checked' mark
+of a schema it refuses`): the mark is set before the examination and nothing ever clears it -/
+def loadPlugin (T : Table) (marks : List Str) (n : Str) : List Str × Except Refusal Unit :=
+  checkTypesF T (2 * T.length + 2) marks n
+
+def loadAll (T : Table) : List Str → List Str → List Str × List (Except Refusal Unit)
+  | marks, [] => (marks, [])
+  | marks, n :: ns =>
+    let r := loadPlugin T marks n
+    let rest := loadAll T r.1 ns
+    (rest.1, r.2 :: rest.2)
+
+/-- `schema.__types_checked__ = False` -/
+def unmark (n : Str) (marks : List Str) : List Str := marks.filter (fun m => m != n)
+
+/-- the walk of the first repair (`fix: check_types forgets the 'checked' mark of a schema it
+refuses`): every level clears the mark of *its own* class when it raises, i.e. the classes on the
+stack lose their marks, a class that the walk finished before keeps its mark -/
+def checkTypesFStack (T : Table) : Nat → List Str → Str → List Str × Except Refusal Unit
+  | 0, seen, _ => (seen, .ok ())
+  | fuel + 1, seen, n =>
+    if seen.contains n then (seen, .ok ())
+    else
+      match find T n with
+      | none => (seen, .ok ())
+      | some c =>
+        let seen := n :: seen
+        let deps := (match c.parent with
+          | some p => [p]
+          | none => []) ++ (fieldSchemasF T (T.length + 1) n).filter (fun s => s != n)
+        let r := deps.foldl (fun (acc : List Str × Except Refusal Unit) d =>
+          match acc.2 with
+          | .error e => (acc.1, .error e)
+          | .ok () => checkTypesFStack T fuel acc.1 d) (seen, .ok ())
+        match r.2 with
+        | .error e => (unmark n r.1, .error e)
+        | .ok () =>
+          match checkAllowed T c with
+          | .error e => (unmark n r.1, .error e)
+          | .ok () =>
+            match checkOverrides T c with
+            | .error e => (unmark n r.1, .error e)
+            | .ok () => (r.1, .ok ())
+
+def loadAllStack (T : Table) : List Str → List Str → List Str × List (Except Refusal Unit)
+  | marks, [] => (marks, [])
+  | marks, n :: ns =>
+    let r := checkTypesFStack T (2 * T.length + 2) marks n
+    let rest := loadAllStack T r.1 ns
+    (rest.1, r.2 :: rest.2)
+
+end Legacy
+
+/-- The pinned behaviour after a refusal (F31): the refused class `Ch` passed its next load
+unexamined, and so did the class `Le` below it — where the repaired code refuses all three loads
+(`refused_stays_refused`). -/
+theorem legacy_refused_class_passes_next_load :
+    (Legacy.loadAll tblSibs [] ["Ch".toList, "Ch".toList, "Le".toList]).2 = [.error .typeError, .ok (), .ok ()] ∧
+    (loadAll tblSibs [] ["Ch".toList, "Ch".toList, "Le".toList]).2 =
+      [.error .typeError, .error .typeError, .error .typeError] := by
+  refine ⟨rfl, rfl⟩
+
+/-- The first repair (marks cleared level by level, on the stack only) was not enough with a
+dependency cycle: `De` was examined inside the walk of `Mi`, passed, and kept its mark when `Mi` was
+refused afterwards; from then on `De` passed every load although `Mi` on its chain is refused every
+time (reproduced on the real classes at that commit). The final code refuses all four loads. -/
+theorem legacy_nested_descendant_keeps_mark_of_refused_walk :
+    Legacy.loadAllStack tblCyc [] ["Mi".toList, "De".toList, "Mi".toList, "De".toList] =
+      (["De".toList, "Ga".toList], [.error .typeError, .ok (), .error .typeError, .ok ()]) ∧
+    (loadAll tblCyc [] ["Mi".toList, "De".toList, "Mi".toList, "De".toList]).2 =
+      [.error .typeError, .error .typeError, .error .typeError, .error .typeError] := by
+  refine ⟨rfl, rfl⟩
+
+/-! ## constants over collection-valued fields (F30) -/
+
+namespace Legacy
+
+/-- pydantic's `ModelField.type_`: the innermost item type -/
+def innerTy : Ty → Ty
+  | .opt t => innerTy t
+  | .list t => innerTy t
+  | .set t => innerTy t
+  | .ann t => innerTy t
+  | t => t
+
+/-- `add_const_fields` as pinned (before `fix: add_const_fields does not treat collection-valued
+fields as enum/literal specialisation`): the test looked at `field_def.type_` only -/
+def constOk (T : Table) (c : ClassDef) (hints : List (Str × Ty)) (bconsts : List (Str × Json))
+    (parentForbids : Bool) (kv : Str × Json) : Except Refusal Unit :=
+  let k := kv.1
+  match getHint k hints with
+  | some t =>
+    match innerTy t with
+    | .lit vs =>
+      match jsonLit? kv.2 with
+      | some l => if le T (.oneOf [some l]) (.oneOf (vs.map some)) then .ok () else .error .typeError
+      | none => .error .typeError
+    | _ => if c.constOverride then .ok () else .error .valueError
+  | none =>
+    if hasKey k bconsts then (if c.constOverride then .ok () else .error .valueError)
+    else if parentForbids then .error .typeError
+    else .ok ()
+
+end Legacy
+
+/-- the fields of a class as `add_const_fields` sees them (before any of them becomes a constant) -/
+def decoratorHints (T : Table) (c : ClassDef) : List (Str × Ty) :=
+  (ownHints (baseHints T c) c).foldl (fun acc (p : Str × Ty) => setHint p.1 p.2 acc) (baseHints T c)
+
+/-- **A constant over a collection-valued field is refused** unless the replacement is declared
+with `override=True`: whatever the item type of the `List` / `Set` (also below `Optional` /
+`Annotated`) is — a `Literal` or `Enum` containing the constant included — the class definition
+raises. (The "marked subclass" shortcut is for plain fields only: the constant is a valid *item*,
+not a valid value of the collection the parent expects.) -/
+theorem const_over_container_refused (T : Table) (c : ClassDef) (kv : Str × Json) (t : Ty)
+    (hmem : kv ∈ c.consts) (hno : c.constOverride = false)
+    (hhint : getHint kv.1 (decoratorHints T c) = some t) (hcoll : singletonTy t = none) :
+    ∃ e, defineOk T c = .error e := by
+  have key : ∀ pf : Bool, Except.error Refusal.valueError ∈
+      c.consts.map (constOk T c (decoratorHints T c) (baseConsts T c) pf) := by
+    intro pf
+    apply List.mem_map.mpr
+    refine ⟨kv, hmem, ?_⟩
+    simp [constOk, hhint, hcoll, hno]
+  unfold defineOk
+  cases c.parent.bind (find T) <;> simp only <;>
+    (split
+     · exact ⟨_, rfl⟩
+     · split
+       · exact ⟨_, rfl⟩
+       · split
+         · exact ⟨_, rfl⟩
+         · split
+           · exact ⟨_, rfl⟩
+           · exact firstErr_error_of_mem _ _ (key _))
+
+/-- `Ga (k : List[Literal["a","b"]], f : Int)  <-  Ch = add_const_fields({"k": "a"})` -/
+def tblColl (t : Ty) (ovr : Bool) (v : Json) : Table :=
+  [{ name := "Ga".toList, fields := [("k".toList, t, none), ("f".toList, .int, none)] },
+   { name := "Ch".toList, parent := some "Ga".toList, consts := [("k".toList, v)], constOverride := ovr }]
+
+def litAB : Ty := .lit [.str "a".toList, .str "b".toList]
+
+/-- non-vacuity of `const_over_container_refused` and the other branches: a member of the Literal
+over `List` / `Set` / `Optional[List]` is refused, with `override=True` (scalar or list constant) it
+is an ordinary declared override, over the plain (also `Optional` / `Annotated`) field it is the
+"marked subclass" pattern, a foreign value is refused there -/
+example : build (tblColl (.list litAB) false (.str "a".toList)) = .error .valueError ∧
+    build (tblColl (.set litAB) false (.str "a".toList)) = .error .valueError ∧
+    build (tblColl (.opt (.list litAB)) false (.str "a".toList)) = .error .valueError ∧
+    build (tblColl (.ann (.list litAB)) false (.arr [.str "a".toList])) = .error .valueError ∧
+    build (tblColl (.list litAB) true (.str "a".toList)) = .ok () ∧
+    build (tblColl (.list litAB) true (.arr [.str "a".toList])) = .ok () ∧
+    build (tblColl litAB false (.str "a".toList)) = .ok () ∧
+    build (tblColl (.opt (.ann litAB)) false (.str "a".toList)) = .ok () ∧
+    build (tblColl litAB true (.str "zz".toList)) = .error .typeError := by
+  refine ⟨rfl, rfl, rfl, rfl, rfl, rfl, rfl, rfl, rfl⟩
+
+/-- The pinned decorator (F30) let the scalar through: the class was defined, `check_types`
+passed (the constant is no override of an annotation), the child's dump carries the scalar, and
+the parent — which expects a list — rejects it. -/
+theorem legacy_const_over_container_accepted :
+    Legacy.constOk (tblColl (.list litAB) false (.str "a".toList))
+        { name := "Ch".toList, parent := some "Ga".toList, consts := [("k".toList, .str "a".toList)] }
+        [("k".toList, .list litAB), ("f".toList, .int)] [] false ("k".toList, .str "a".toList) = .ok () ∧
+    constOk (tblColl (.list litAB) false (.str "a".toList))
+        { name := "Ch".toList, parent := some "Ga".toList, consts := [("k".toList, .str "a".toList)] }
+        [("k".toList, .list litAB), ("f".toList, .int)] [] false ("k".toList, .str "a".toList) = .error .valueError ∧
+    checkTypes (tblColl (.list litAB) false (.str "a".toList)) "Ch".toList = .ok () ∧
+    (∀ env, decode env (.model "Ch".toList .allow [.mk "f".toList .int true none] [("k".toList, .str "a".toList)])
+        (.obj [("f".toList, .int 1)]) =
+      .ok (.obj "Ch".toList [("f".toList, .int 1)] [("k".toList, .str "a".toList)] [])) ∧
+    (∀ env, accepts env (.model "Ga".toList .allow [.mk "k".toList (.list litAB) true none, .mk "f".toList .int true none] [])
+        (encode (.obj "Ch".toList [("f".toList, .int 1)] [("k".toList, .str "a".toList)] [])) = false) := by
+  refine ⟨rfl, rfl, rfl, fun _ => rfl, fun _ => rfl⟩
 
 end MetadorModel.C13
